@@ -309,8 +309,7 @@ def gen(tier, rng):
     # 1. every layout of n <= 4 agents: direct sequences and the three managers
     for n in (1, 2, 3, 4):
         for learn, part in layouts(n):
-            reps = 1 if (quick and n == 4) else 2
-            for _ in range(reps if quick else 6):
+            for _ in range(2 if quick else 6):
                 mapping = shuffled(rng, part)
                 sc = make_script(rng, n, learn)
                 nulls = make_nulls(rng, n, learn)
@@ -326,7 +325,7 @@ def gen(tier, rng):
         mapping = [[rng.randrange(n + 1) for _ in range(rng.randint(0, 3))] for _ in range(rng.randint(1, 3))]
         yield [sc, mapping, make_nulls(rng, n, learn), [0, random_calls(rng, n, [], 4)]]
     # 3. random larger cases
-    for _ in range(1500 if quick else 40000):
+    for _ in range(4000 if quick else 40000):
         n = rng.randint(1, 6 if quick else 8)
         roles = [rng.choice([0, 1, 2, 2, 2]) for _ in range(n)]
         learn = [0 if r == 0 else 1 for r in roles]
